@@ -31,3 +31,7 @@ with cf.ThreadPoolExecutor(max_workers=3) as ex:
         for p, v in res["results"].items():
             tag = "ok" if v["exit"] == 0 else ("undecided" if v["exit"] == 2 else "FALSE ALARM")
             print("%-6s %-4s %-12s %s" % (res["id"], p, tag, (v["violations"] or v["undecided"] or [""])[0][:140]))
+# prune build artefacts of the scratch trees (see run_seeded.py)
+subprocess.run("cd %s/.cache/replay-target/debug 2>/dev/null && find incremental -maxdepth 1 -mindepth 1 -mmin +60 ! -name '*main*' -exec rm -rf {} + ; "
+               "find deps -maxdepth 1 -name '*vreplay_*' ! -name '*vreplay_main*' -mmin +60 -delete ; find . -maxdepth 1 -name 'vreplay_*' ! -name 'vreplay_main*' -mmin +60 -delete ; "
+               "find %s/.cache -maxdepth 1 -name 'replay-[0-9a-f]*' -mmin +60 -exec rm -rf {} + ; find %s/.cache -maxdepth 1 -name 'kani-target-*' -mmin +30 -exec rm -rf {} +" % (V, V, V), shell=True, capture_output=True)
